@@ -105,8 +105,20 @@ func (p *Proc) callValue(ec *ectx, funExpr ast.Expr, fv Val, sig *types.Signatur
 	// unknown function value: anything may happen to the heap; the invocation is counted
 	p.ctx.notes["calls through unknown function values havoc the heap"] = true
 	inv := p.heapGet(st, "G:$invoked", SInt)
+	preInv := st.clone()
 	p.havocAll(st)
 	p.heapSet(st, "G:$invoked", Add(inv, IntLit(1)))
+	// rely: what any function value invoked by this procedure leaves intact (`invokes EXPR`
+	// clauses: assumptions about the serialising context, listed in the evidence)
+	if fr := p.cur(); fr.contract != nil {
+		for _, cl := range fr.contract.ByKind("invokes") {
+			cec := p.specEc(st, call.Pos())
+			cec.old = preInv
+			cec.where = cl.Where
+			st.assume(p.eval(cec, cl.Expr).T)
+			p.ctx.notes["rely assumed after every callback invoked by "+p.fi.Name+": "+cl.Text] = true
+		}
+	}
 	var results []Val
 	for i := 0; i < sig.Results().Len(); i++ {
 		rt := sig.Results().At(i).Type()
